@@ -130,4 +130,26 @@ theorem C04_threshold_full (menv : Md.MdEnv) (cenv : Coh.CohEnv) (o : Oracle) {b
   obtain ⟨incl, excl, hincl, hexcl⟩ := fromBytes_ok_canon h
   exact C04_threshold sortMatches_perm hincl hexcl hb h
 
+/-- the hypothesis `fromBytes … = .ok (.ok ms)` of the bundled statements above is not vacuous and not a restriction:
+    under the premises of `detection_full` the model always answers, and whenever the answer is a list of matches
+    every clause of `detection_full_languages` and `detection_full_verdicts` holds of it -/
+theorem detection_full_companions (menv : Md.MdEnv) (cenv : Coh.CohEnv) (o : Oracle) (b : Bytes) (s : Settings)
+    (hb : b ≠ []) (hs : 1 ≤ s.steps) (hlen : b.length + 1 < 2 ^ 64) (hthr : s.thr.isNaN = false) :
+    ∃ r, fromBytes (worldFull menv cenv o) tablesNow sortMatches b s = .ok r ∧
+      ∀ ms, r = .ok ms →
+        (∀ m ∈ ms, m.languages.Nodup) ∧
+        (∀ m ∈ ms, ∀ c ∈ m.entries, c.cohs.Pairwise (fun a b => b.2.key ≤ a.2.key)) ∧
+        (Fits b s → ∀ m ∈ ms, ∀ c ∈ m.entries, Fl.ge c.chaos s.thr = false →
+          ∃ t, c.text = some t ∧ c.chaos = (if t.isEmpty then Fl.zero else Md.messRatio menv t s.thr)) ∧
+        (∀ m ∈ ms, ∀ x ∈ m.entries, x.enc ∈ Gen.supported →
+          ∃ m0, m0.toSub = x ∧ m0.subs = [] ∧
+            fromBytes (worldFull menv cenv o) tablesNow sortMatches b { s with incl := [x.enc] } = .ok (.ok [m0])) := by
+  obtain ⟨r, hr⟩ := C02_full menv cenv o b s hs hlen
+  refine ⟨r, hr, ?_⟩
+  intro ms hms
+  subst hms
+  have h1 := detection_full_languages menv cenv o b s hb hthr hr
+  have h2 := detection_full_verdicts menv cenv o b s hb hr
+  exact ⟨h1.1, h1.2.1, h1.2.2, h2.1⟩
+
 end Charset
